@@ -134,6 +134,21 @@ func NewWorld(start string) *World {
 		base, ref = start[:i], start[i+1:]
 	}
 	var err error
+	// a start "\x1cfail|url" is parsed by a parser with fail-on-validation-error: every setter and resolution on the
+	// value then runs with that option (a refused call must leave URL and list consistent)
+	if strings.HasPrefix(ref, "\x1cfail|") {
+		ref = ref[len("\x1cfail|"):]
+		if p := safely(func() { w.U, err = c15Fail.ParseRef(base, ref) }); p != "" {
+			w.Panic = p
+			return w
+		}
+		if err != nil || w.U == nil {
+			w.Dead = true
+			return w
+		}
+		w.ML = model.ParseURLEncoded(w.U.Query())
+		return w // no model record: the model does not know the option
+	}
 	if p := safely(func() { w.U, err = url.ParseRef(base, ref) }); p != "" {
 		w.Panic = p
 		return w
